@@ -83,7 +83,7 @@ func binomialAtMost(n, k int, lim int64) bool {
 }
 
 func famInterleave(t *lc) {
-	ai := t.c.Choose(len(t.e.vals), "value")
+	ai := t.c.Choose(len(t.e.values(t.seed)), "value")
 	bi := t.c.Choose(len(interleavePool), "other-object")
 	x := t.at(ai)
 	be, bo := poolObject(x, bi)
